@@ -99,5 +99,18 @@ func genC19(repo string) (string, error) {
 		rets = append(rets, goast.Q(f.Src(st)))
 	}
 	o.sb.WriteString("Definition body_checkRegionRecover : list string := (* top-level statements of checkRegionRecover, source text *)\n  " + goast.CoqList(rets[len(rets)-1:]) + ".\n")
+	// core.Storage.LoadReplicationStatus: the error of the read is looked at BEFORE the empty-value test ("nothing persisted");
+	// loadDRAutoSync initialises the state (switch to sync) when it is told that nothing is persisted
+	sf, err := goast.Load(repo, "server/core/storage.go")
+	if err != nil {
+		return "", err
+	}
+	if err := o.skeleton(sf, "Storage", "LoadReplicationStatus", "skel_LoadReplicationStatus",
+		goast.SkelOpt{Conds: true, Calls: set("Load", "Unmarshal")}); err != nil {
+		return "", err
+	}
+	if err := c14Guards(&o, sf, "Storage", "LoadReplicationStatus", "guards_LoadReplicationStatus"); err != nil {
+		return "", err
+	}
 	return o.sb.String(), nil
 }
